@@ -5,6 +5,7 @@
 //! Leg "task" (E1): deviation-bounded schedules of two real futures (write_all / read_exact /
 //!                  FramedRead) with drop faults and spurious polls; same oracles + termination.
 
+mod loomleg;
 mod oplevel;
 mod tasklevel;
 
@@ -57,6 +58,14 @@ fn replay(ctx: Ctx, r: Value) -> ! {
             }
             if let Some(v) = v {
                 ctx.violation("op", &v.sig, json!({"leg": "op", "config": op_cfg_json(&cfg), "ops": ops.iter().map(|o| o.name()).collect::<Vec<_>>(), "what": v.expl, "trace": trace}));
+            }
+        }
+        Some("loom") => {
+            let exe = std::env::current_exe().unwrap();
+            let o = std::process::Command::new(exe).arg("--loom-scenario").arg(d["scenario"].as_str().unwrap_or("")).env("VERIF_LOOM_BOUND", "0").env_remove("LD_PRELOAD").output().unwrap();
+            eprintln!("{}", String::from_utf8_lossy(&o.stderr).lines().filter(|l| l.contains("law=")).take(3).collect::<Vec<_>>().join("\n"));
+            if !o.status.success() {
+                ctx.violation("loom-channel", &sig, d.clone());
             }
         }
         Some("task") => {
@@ -383,6 +392,10 @@ fn standalone_budget1_probe() {
 }
 
 fn main() {
+    let args: Vec<String> = std::env::args().collect();
+    if args.len() >= 3 && args[1] == "--loom-scenario" {
+        loomleg::child(&args[2]);
+    }
     if std::env::var("C12_STANDALONE_PROBE").is_ok() {
         standalone_budget1_probe();
         return;
@@ -401,7 +414,8 @@ fn main() {
     if legs.contains("task") {
         run_task_legs(&ctx);
     }
-    ctx.assume("op-level interleavings = thread interleavings: every access to a Conduit field (data, capacity, waker, closed) in channel/mod.rs happens between `self.inner.lock()` and the end of the same function (poll_read, poll_write, poll_flush, poll_shutdown, is_closed, both Drop impls), including `waker.wake()`; the only code outside the lock is the coop budget (thread-local) and `wake_by_ref` on the caller's own waker. Checked by reading the code; a change that moves work outside the lock is outside this check");
+    loomleg::run_leg(&ctx);
+    ctx.assume("op-level interleavings = thread interleavings: every access to a Conduit field (data, capacity, waker, closed) in channel/mod.rs happens between `self.inner.lock()` and the end of the same function (poll_read, poll_write, poll_flush, poll_shutdown, is_closed, both Drop impls), including `waker.wake()`; the only code outside the lock is the coop budget (thread-local) and `wake_by_ref` on the caller's own waker. Checked by reading the code; the leg loom-channel drops this assumption for closing one end while the other parks and for a write racing a read (every interleaving of the individual lock / unlock steps of two threads)");
     ctx.assume("the coop budget is thread-local: the harness runs both logical tasks on one thread and restores each task's own residue through the public RunWithBudget::with_budget before every operation (op leg); the residue arithmetic (minus one per operation, yield at zero) is mirrored by the harness and every predicted yield is compared with the observed one (budget_model_mismatches in the evidence)");
     ctx.assume("the canonical key identifies the buffer content with (written, read) - guaranteed by the FIFO oracle on every earlier transition - and does not include the internal offset/allocation state of BytesMut; bytes::BytesMut is trusted");
     ctx.assume("a task waits only for the waker of its most recent poll (AsyncRead/AsyncWrite contract); every logical poll uses a fresh waker");
